@@ -35,7 +35,10 @@ def tables(ctx):
     regs = O["registers"]
     try:
         r2q = S.static_elements(facts, REGS + "REGISTER_TO_QWORD")
-        high = S.static_elements(facts, REGS + "HIGHER_BYTE_REGISTERS")
+        try:
+            high = S.static_elements(facts, REGS + "HIGHER_BYTE_REGISTERS")
+        except KeyError:
+            high = None  # the high-byte test need not be a table; C07.bits decides the aliasing per view either way
         gprs = S.static_elements(facts, REGS + "GENERAL_PURPOSE_REGISTERS")
         xmms = S.static_elements(facts, REGS + "XMM_REGISTERS")
     except KeyError as e:
@@ -56,8 +59,10 @@ def tables(ctx):
                          what="sub-register mapped to the wrong 64-bit register")
     for r in sorted(set(table) - set(arch)):
         ck.violation("C07.tables", "view=%s" % r, "extra entry -> %s" % table[r])
-    hs = sorted(S.sreg_name(facts, x) for x in high)
-    if hs == sorted(HIGH):
+    hs = sorted(S.sreg_name(facts, x) for x in high) if high is not None else None
+    if hs is None:
+        pass
+    elif hs == sorted(HIGH):
         ck.ok("C07.tables", "HIGHER_BYTE_REGISTERS")
     else:
         ck.violation("C07.tables", "HIGHER_BYTE_REGISTERS", "= %s, architecture %s" % (hs, sorted(HIGH)))
@@ -124,7 +129,7 @@ def tables(ctx):
             ck.violation("C07.tables", inst, "no name-preserving arm")
     ck.floor("SupportedRegister variants", len(names), 86)
     ck.floor("register views", len(arch), 68)
-    return {"r2q": table, "high": set(hs), "names": names, "partial": partial}
+    return {"r2q": table, "high": set(hs or ()), "names": names, "partial": partial}
 
 
 def make_intercept(ctx, tabs):
